@@ -1,7 +1,10 @@
 #!/usr/bin/env python3
 """MANIFEST.json is generated from checks.json (single source of truth for the driver and the manifest)."""
 import json, subprocess
-cfg = json.load(open('/verif/checks.json'))
+import glob
+cfg = {}
+for f in sorted(glob.glob('/verif/harness/c[0-9][0-9]/check.json')):
+    cfg.update(json.load(open(f)))
 props = [json.loads(l) for l in open('/verif/properties.jsonl')]
 try:
     na_reasons = json.load(open('/verif/not_applicable.json'))
